@@ -36,7 +36,67 @@ var classes = []class{
 
 var physes = []string{"usb-0000:00:14.0-1/input0", "usb-0000:00:14.0-2/input0", ""}
 
-type item struct{ cls, phys int }
+type item struct {
+	name  string
+	types []evdev.EvType
+	phys  int
+}
+
+// refHandler: the capability classification the property refers to ("joystick-like", "a standard keyboard"), as a pure
+// function of the capability set: the two standard-keyboard signatures, the other exact signatures (NKRO keyboard,
+// mouse, system, multimedia) which are neither, and otherwise joystick-like iff force feedback or absolute axes.
+func refHandler(types []evdev.EvType) string {
+	set := map[evdev.EvType]bool{}
+	for _, t := range types {
+		set[t] = true
+	}
+	is := func(want ...evdev.EvType) bool {
+		if len(want) != len(set) {
+			return false
+		}
+		for _, w := range want {
+			if !set[w] {
+				return false
+			}
+		}
+		return true
+	}
+	switch {
+	case is(evdev.EV_SYN, evdev.EV_KEY, evdev.EV_MSC, evdev.EV_LED, evdev.EV_REP),
+		is(evdev.EV_SYN, evdev.EV_KEY, evdev.EV_REL, evdev.EV_ABS, evdev.EV_MSC, evdev.EV_LED, evdev.EV_REP):
+		return "keyboard"
+	case is(evdev.EV_SYN, evdev.EV_KEY, evdev.EV_MSC, evdev.EV_REP),
+		is(evdev.EV_SYN, evdev.EV_KEY, evdev.EV_REL, evdev.EV_MSC),
+		is(evdev.EV_SYN, evdev.EV_KEY, evdev.EV_MSC),
+		is(evdev.EV_SYN, evdev.EV_KEY, evdev.EV_REL, evdev.EV_ABS, evdev.EV_MSC):
+		return "other"
+	case set[evdev.EV_FF] || set[evdev.EV_ABS]:
+		return "joystick"
+	}
+	return "other"
+}
+
+func codeHandler(di input.DeviceInfo) string {
+	switch di.HandlerType() {
+	case input.DI_TYPE_JOYSTICK:
+		return "joystick"
+	case input.DI_TYPE_STD_KBD:
+		return "keyboard"
+	}
+	return "other"
+}
+
+var allTypes = []evdev.EvType{evdev.EV_SYN, evdev.EV_KEY, evdev.EV_REL, evdev.EV_ABS, evdev.EV_MSC, evdev.EV_SW, evdev.EV_LED, evdev.EV_SND, evdev.EV_REP, evdev.EV_FF, evdev.EV_PWR, evdev.EV_FF_STATUS}
+
+func subset(mask int) []evdev.EvType {
+	var r []evdev.EvType
+	for b, t := range allTypes {
+		if mask&(1<<uint(b)) != 0 {
+			r = append(r, t)
+		}
+	}
+	return r
+}
 
 func playClass(t input.DeviceType) string {
 	switch t {
@@ -104,7 +164,7 @@ func main() {
 	var items []item
 	for c := range classes {
 		for p := range physes {
-			items = append(items, item{c, p})
+			items = append(items, item{classes[c].name, classes[c].types, p})
 		}
 	}
 	idModes := []string{"per-location"}
@@ -122,21 +182,21 @@ func main() {
 			if idMode == "per-handler" {
 				id.Product = uint16(100 + i)
 			}
-			infos[i] = input.VerifDeviceInfo(fmt.Sprintf("event%d", i), fmt.Sprintf("Dev %d %s", it.phys, classes[it.cls].name), physes[it.phys], id, "", classes[it.cls].types)
+			infos[i] = input.VerifDeviceInfo(fmt.Sprintf("event%d", i), fmt.Sprintf("Dev %d %s", it.phys, it.name), physes[it.phys], id, "", it.types)
 			uniform[physes[it.phys]] = idMode == "per-location"
 		}
-		// reference partition and types (handler classification is the code's own HandlerType)
+		// reference partition and types (handler classification: refHandler, a pure function of the capability set)
 		wantType := map[string]string{}
 		wantMembers := map[string][]string{}
 		for i, it := range ms {
 			ph := physes[it.phys]
 			wantMembers[ph] = append(wantMembers[ph], fmt.Sprintf("event%d", i))
-			ht := infos[i].HandlerType()
+			ht := refHandler(it.types)
 			cur := wantType[ph]
 			switch {
-			case ht == input.DI_TYPE_JOYSTICK:
+			case ht == "joystick":
 				cur = "joystick"
-			case ht == input.DI_TYPE_STD_KBD && cur != "joystick":
+			case ht == "keyboard" && cur != "joystick":
 				cur = "keyboard"
 			case cur == "":
 				cur = "not-playable"
@@ -154,7 +214,7 @@ func main() {
 		desc := func(order []int) string {
 			var s []string
 			for _, i := range order {
-				s = append(s, fmt.Sprintf("event%d:%s@%q", i, classes[ms[i].cls].name, physes[ms[i].phys]))
+				s = append(s, fmt.Sprintf("event%d:%s@%q", i, ms[i].name, physes[ms[i].phys]))
 			}
 			return strings.Join(s, ", ")
 		}
@@ -219,7 +279,7 @@ func main() {
 				if len(res.Samples) < 3 && count%1777 == 1 {
 					var s []string
 					for _, it := range cur {
-						s = append(s, classes[it.cls].name+"@"+fmt.Sprintf("%q", physes[it.phys]))
+						s = append(s, it.name+"@"+fmt.Sprintf("%q", physes[it.phys]))
 					}
 					res.Sample(map[string]interface{}{"handlers": s, "orders": "all permutations"})
 				}
@@ -235,6 +295,39 @@ func main() {
 	rec(0, nil)
 	if *shard == 0 {
 		check(nil, "per-location") // empty discovery
+	}
+	// every capability set (all 4096 subsets of the 12 event types): the code's classification is the stated one and a
+	// pure function of the capabilities - asked under a fresh event-node name and under a name that earlier handlers
+	// with other capabilities have used (the kernel hands event numbers out again after an unplug)
+	for mask := 0; mask < 1<<uint(len(allTypes)); mask++ {
+		if mask%*nshards != *shard {
+			continue
+		}
+		ts := subset(mask)
+		want := refHandler(ts)
+		for _, ev := range []string{fmt.Sprintf("event%d", 1000+mask), "event0", "event1"} {
+			res.Add("evaluations", 1)
+			di := input.VerifDeviceInfo(ev, "Sweep", physes[0], input.InputID{Bus: 3}, "", ts)
+			if got := codeHandler(di); got != want {
+				cls := "handler-classification-wrong"
+				if ev == "event0" || ev == "event1" {
+					cls = "classification-depends-on-history"
+				}
+				res.Violate(cls, fmt.Sprintf("%s-vs-%s", got, want), fmt.Sprintf("a handler %s with capabilities %v is classified %s, the capability rule gives %s", ev, ts, got, want),
+					map[string]interface{}{"event": ev, "capabilities": fmt.Sprint(ts), "got": got, "expected": want})
+				break
+			}
+		}
+		// ... and grouped with one handler of every class, same and other location, both orders
+		if *tier == "thorough" || mask%16 == *shard%16 {
+			x := item{fmt.Sprintf("caps%03x", mask), ts, 0}
+			for c := range classes {
+				for _, ph := range []int{0, 1} {
+					check([]item{x, {classes[c].name, classes[c].types, ph}}, "per-location")
+				}
+			}
+			res.Add("multisets", int64(2*len(classes)))
+		}
 	}
 	res.Write(*out)
 }
